@@ -5,6 +5,7 @@ the results can differ within the bound, replay any model on real SQLite before 
 """
 import json
 import os
+import re
 import sqlite3
 import sys
 import time
@@ -181,6 +182,8 @@ def rows_match(expected, actual, ordered):
 
 
 def run_sqlite(schema, data, sql):
+    # the generic target may emit `OFFSET n` without LIMIT (standard SQL); SQLite spells that LIMIT -1 OFFSET n
+    sql = re.sub(r"(LIMIT -?\d+ )?OFFSET (\d+)", lambda m: m.group(0) if m.group(1) else f"LIMIT -1 OFFSET {m.group(2)}", sql)
     con = sqlite3.connect(":memory:")
     try:
         for t, cols in schema.items():
